@@ -24,7 +24,8 @@ CHECKS = {
             "once; nothing is retrievable afterwards)", "3/C08, 7.2"),
     "C09": ("TLC checks InOrderOnce / OnceEach with a connection drop or an aborted reconnect at every step; real executions whose "
             "environment was benign (drops, aborted reconnects, duplicates, reorderings) must reach the goal (key established, every "
-            "message delivered) after a fair completion; arrival-permutation and un-echoed-resubmission families", "3/C09"),
+            "message delivered) after a fair completion; arrival-permutation, un-echoed-resubmission and long-outage (many refused "
+            "connection attempts in a row) families", "3/C09"),
     "C14": ("TLC reachability of NoTransition / assertion failures on the tables extracted from the tree (re-entrant close, late "
             "frames, third participant, failed connection, input/allocate flows); every counterexample is replayed on the real "
             "code before it counts", "3/C14"),
@@ -38,7 +39,10 @@ CHECKS = {
             "(+ termination) for payloads of 0..3 records under every fault; every distinct fault signature of its behaviours is "
             "executed with the real `wormhole send` and `wormhole receive` commands on the simulated reactor (files around the "
             "16 KiB record boundary, odd names, directory trees, text), faults injected at byte offsets of the transit stream; "
-            "XferObs.tla decides on the reported outcomes and the receiver's file system", "3/C04"),
+            "(cut, corruption, an earlier record shown again in place of a later one, lost acknowledgement); "
+            "XferObs.tla decides on the reported outcomes and the receiver's file system; supplementary specifications bound the same way: "
+            "XferProto.tla (prompts / messages / outcomes / how the code is come by, the other command started from the printed command line, "
+            "outcomes as cli._dispatch_command reports them) and SshKey.tla (`wormhole ssh invite / accept`, xfer_util)", "3/C04, 7.5"),
     "C05": ("RecvDest.tla: the destination decision table over abstract name classes x --output-file state x accept-file x "
             "pre-existing objects; TLC checks the statement on the whole abstract space (decoration of the offered name is "
             "irrelevant, existing destination fails, replacement only when named, directories never deleted, hostile zip members "
@@ -52,24 +56,28 @@ CHECKS = {
             "with byte-level concretisation of flips, queue / loop / consumer / back-pressure-consumer readers; the Mixed configuration "
             "(single records read and consumers expecting the bytes of the next 0..2 records taking turns, as a file transfer uses the "
             "connection) is model-checked and walks of a sequential application over real Connection pairs are validated against it; "
-            "TransitObs.tla decides", "3/C06, 7.2"),
+            "long histories (300 / 700 records, a stale frame shown again where the nonce's low byte repeats) and reads that end a few bytes "
+            "into the next length prefix; TransitObs.tla decides", "3/C06, 7.2"),
     "C07": ("Transit.tla: TLC checks AtMostOneGo / GoOnlyAfterRH / ReceiverNeedsGo / SameLink / KeyHoldersOnly / OthersClosed / "
             "DeadlineDecides (+ NoHang liveness) for twelve contender configurations (direct both ways, relays, strangers, wrong-key "
             "peers, a dishonest relay, a key-holding sender of another implementation that says nevermind, units coalesced in one "
             "read); behaviours are replayed on a real TransitSender/TransitReceiver on the simulated TCP fabric with state "
-            "comparison after every step; TransitSelObs.tla decides", "3/C07"),
+            "comparison after every step; seeded walks over the real pair validated by TLC; the selected link must still be up after three "
+            "idle time-outs; TransitSelObs.tla decides", "3/C07"),
     "C10": ("DilationL4.tla: outbound queue / ack / watermark / replay-on-reconnect model; TLC checks InOrderOnce / NothingForgotten / "
             "Goal (+ eventual delivery) with cuts at every record; behaviours are replayed in both directions on two real Managers "
             "(real Outbound, Inbound, SubChannels, endpoints, reconnect state machine) over scripted L2 connections with delivered "
             "callbacks compared after every step; seeded random walks over the real Managers are recorded and validated by TLC against "
             "DilationL4.tla (code -> spec); families on real DilatedConnectionProtocol pairs and on two real dilating wormholes "
-            "(real Connector) with writes before, across and after network cuts; DilMidObs.tla decides", "3/C10, 7.2"),
+            "(real Connector) with writes before, across and after network cuts, both applications opening subchannels in one session, "
+            "a session of 310 records; DilMidObs.tla decides", "3/C10, 7.2"),
     "C13": ("DilationSub.tla interprets the SubChannel transition table extracted from the tree, plus Inbound/SubchannelDemultiplex; "
             "TLC checks OpensOnce / NothingAfterLost / DataInOrder / IdsDisjoint / UnexpectedRefused / NoInternal for listen-before/"
             "after-open, expected sets, half-closeable protocols, both sides opening; behaviours replayed on real Managers built "
             "with expected_subprotocols the way dilate() builds them; seeded random walks over the real objects are validated by TLC "
             "against DilationSub.tla (code -> spec); a full-stack family (two real dilating wormholes) opens, writes and closes "
-            "subchannels while connected or offline; DilMidObs.tla decides", "3/C13, 7.2"),
+            "subchannels while connected or offline; coverage goals (what a late listener finds waiting) as TLC witnesses replayed on the "
+            "real objects; at rest every closed subchannel was lost once on both sides; DilMidObs.tla decides", "3/C13, 7.2"),
     "C11": ("DilationL3.tla interprets the Manager, Connector and DilatedConnectionProtocol tables extracted from the tree (mailbox "
             "control messages FIFO per sender, candidate links with handshake/KCM phases, eventual-queue turns, cuts observed by "
             "either side first); TLC checks AtMostOneSelected / FollowerFollowsLeader / NoDeadlock (convergence under the "
@@ -79,12 +87,15 @@ CHECKS = {
     "C17": ("DilationL3.tla with Stop enabled at every reachable Manager/Connector state: TLC checks NothingLeftAfterStop and the "
             "liveness StopCompletes under fairness; behaviours (and every counterexample on the current tables) are replayed on "
             "the full stack where Stop is a real w.close(); listeners / pending attempts / selected connection inspected on the "
-            "simulated fabric at the closed notification; a non-dilating peer must fail connect() with OldPeerCannotDilateError", "3/C17"),
+            "simulated fabric at the closed notification; a non-dilating peer must fail connect() with OldPeerCannotDilateError; a peer of "
+            "another build (no version in common) that dilates all the same must not keep close() from completing", "3/C17"),
     "C12": ("DilationL2.tla: token-stream model of one L2 direction (relay reply, prologue, Noise handshake, KCM, records) with one "
             "adversarial replacement at every position; TLC checks ManagerOnlyAfterKCM / NothingAfterFault / FaultDrops / "
             "CleanDelivers and enumerates 76 record classes (7 types x id/seqnum boundary values x payload lengths around the Noise "
             "packet limit x subprotocol names); every class is round-tripped and every (fault, position) executed on real "
-            "DilatedConnectionProtocol pairs under four fragmentations; DilationL2Obs.tla decides", "3/C12"),
+            "DilatedConnectionProtocol pairs under four fragmentations; DilationL2Obs.tla decides; supplementary: DilationL2M.tla (the "
+            "conversation of both ends at the level of the extracted _Framer / _Record / DilatedConnectionProtocol tables), walks over real "
+            "pairs validated by TLC", "3/C12, 7.5"),
     "C15": ("DilationFlow.tla: Outbound's pause flag / rotating deque / paused+unpaused sets with the resume loop modelled one "
             "iteration per step so that transport pause/resume, register/unregister and subchannel close occur inside a "
             "producer's turn; Inbound's pause set across connections; TLC checks ThreeSets / AllPausedWhenPaused / NoConnMeansPaused "
